@@ -921,7 +921,9 @@ pub async fn run_timeout_one(rep: &mut Report, sub_seed: u64, table: std::sync::
     if migs.is_empty() {
         return;
     }
-    // PRECHECK passes, PRESWITCH is never answered
+    // PRECHECK passes, PRESWITCH is never answered; the background scan is held back as well, as a scan
+    // over real data takes long: "blocking has stopped" must not depend on the scan being over
+    *sc.policy.hold_scan.write() = true;
     for m in migs.iter() {
         sc.open("PRECHECK", &m.meta.dst_proxy_address);
     }
@@ -957,7 +959,22 @@ pub async fn run_timeout_one(rep: &mut Report, sub_seed: u64, table: std::sync::
     let parked = probes.iter().filter(|p| !p.0.is_finished()).count();
     rep.count("timeout_leg_commands_queued_during_blocking", parked as u64);
     // the timeout fires, the barrier is lifted (bounded: twice the configured time and two seconds on top)
-    tokio::time::sleep(Duration::from_millis(2 * max_blocking + 2000)).await;
+    let mut waited = 0u64;
+    while waited < 2 * max_blocking + 2000 {
+        tokio::time::sleep(Duration::from_millis(100)).await;
+        waited += 100;
+        if probes.iter().all(|p| p.0.is_finished()) {
+            break;
+        }
+    }
+    rep.set_max("max_timeout_leg_ms_until_all_released", waited);
+    if std::env::var("VERIF_C11_TRACE").is_ok() {
+        let mut st = vec![];
+        for m in blocked.iter() {
+            st.push(format!("{:?}", sc.task_states(&m.meta.src_proxy_address).await));
+        }
+        println!("TRACE released after {} ms; states {:?}", waited, st);
+    }
     rep.evaluations += 1;
     rep.count("timeout_leg_scenarios", 1);
     rep.distinct(format!("timeout|{}|{}|{}", opts.from_nodes, opts.to_nodes, parked).as_bytes());
